@@ -15,6 +15,7 @@ GENERATORS = [
     ("gen_walker", "generate", "GenWalker.v"),
     ("gen_cli", "generate", "GenCli.v"),
     ("gen_wrappers", "generate", "GenWrappers.v"),
+    ("gen_shapes", "generate", "GenShapes.v"),
 ]
 
 
